@@ -3,7 +3,7 @@ import MesaModel.Model.Layers
 Line-protocol driver for the Layers model (C11, C18-layers).  One output line per input line.
 Producer: harness/layers_common.py.
 
-  scenario new|single|multi DIMS CAP GRIDCLASS TORUS    reset   (DIMS = 2x3, CAP = 0 for unbounded,
+  scenario new|single|multi DIMS CAP GRIDCLASS TORUS    reset   (DIMS = 2x3, CAP = 0 for unbounded, `zero` for a capacity of 0,
                                               GRIDCLASS = moore|vonneumann|hex|-, TORUS = 0|1: harness only)
   create NAME DTYPE DEFAULT                   create_property_layer / PropertyLayer + add_property_layer
   new NAME DIMS DTYPE DEFAULT                 a free-standing PropertyLayer
@@ -272,6 +272,10 @@ def fmtOut : Out → String
   | .dt d => "ok dt=" ++ fmtDType d
   | .err e => fmtErr e
 
+/-- CAP of the scenario line: `0` = no capacity (`None`), `zero` = a capacity of 0, `N` = capacity N -/
+def parseCap (s : String) : Option (Option Nat) :=
+  if s = "0" then some none else if s = "zero" then some (some 0) else s.toNat?.map some
+
 def parseImpl : String → Option Impl
   | "new" => some .new
   | "single" => some .single
@@ -284,7 +288,7 @@ def stepLine (st : State × Geo) (ws : List String) : (State × Geo) × String :
       -- grid class and torus flag select which mesa class the harness instantiates; the model needs them only
       -- for neighbourhood masks (they are arguments of that op)
       if !(["moore", "vonneumann", "hex", "-"].contains gridclass) then (st, "bad-op") else
-      match parseImpl k, parseDims dims, cap.toNat?, parseFlag torus with
+      match parseImpl k, parseDims dims, parseCap cap, parseFlag torus with
       | some k, some dims, some cap, some torus => ((init k dims cap, ⟨gridclass, torus⟩), "ok")
       | _, _, _, _ => (st, "bad-op")
   | ws =>
@@ -301,5 +305,5 @@ partial def loop (h : IO.FS.Stream) (out : IO.FS.Stream) (st : State × Geo) : I
 
 def main : IO Unit := do
   let out ← IO.getStdout
-  loop (← IO.getStdin) out (init .new [1, 1] 0, ⟨"moore", false⟩)
+  loop (← IO.getStdin) out (init .new [1, 1] none, ⟨"moore", false⟩)
   out.flush
